@@ -221,8 +221,11 @@ func open(out *verifutil.Out, rnd *verifutil.Rand, cfg Config, b *Blob, openView
 	s.LayerLevel = cfg.LayerLevel
 	s.Tag = fmt.Sprintf("%s[%s %s %s]", tag, cfg.Stack.Name, b.Comp, ckind)
 	out.Comment(fmt.Sprintf("session %s open=%s", s.Tag, openView.Kind))
-	out.Emit(s.NewLine(false, false), "ok")
+	s.emit(s.NewLine(false, false), "ok")
 	out.Count("open-ok-" + openView.Kind)
+	if s.Irregular {
+		out.Count("open-irregular-" + openView.Kind)
+	}
 	return s
 }
 
